@@ -642,6 +642,7 @@ fn sweep(cfg: &Config, decls: &[usize], n: u64, keep_trace: bool, workers: usize
 
 fn run_check(cfg: &Config) -> i32 {
     let t0 = Instant::now();
+    let mut determinism_diverged = false;
     let decls = c10_decls();
     let n: u64 = if cfg.thorough() { 10_000_000 } else { 600_000 };
     let cfg2 = cfg.clone();
@@ -662,9 +663,19 @@ fn run_check(cfg: &Config) -> i32 {
     let a = sweep(cfg, &decls, 1024, true, 3);
     let b = sweep(cfg, &decls, 1024, true, cfg.workers.max(2));
     if a.trace != b.trace {
-        report::harness_error("determinism probe failed: the same seeds produced different event logs");
+        determinism_diverged = true;
     }
     let out = report::settle_violations(cfg, &stats, &minimise);
+    if determinism_diverged {
+        if out.new_violations == 0 {
+            // The simulator is deterministic on the unchanged tree (./check selfcheck); if the same
+            // seeds give different event logs at different worker counts, something in the run has
+            // state that outlives a run. Without a concrete violation this is reported as a harness
+            // error, never as a property violation.
+            report::harness_error("determinism probe failed: the same seeds produced different event logs at different worker counts");
+        }
+        println!("NOTE: the determinism probe also diverged (results depend on which runs shared a worker thread: hidden state that outlives a run)");
+    }
     let wall = t0.elapsed().as_secs_f64();
     let must = [
         "probe.bare_trace_compared_with_inner",
